@@ -1,1 +1,301 @@
-/-! Property theorems for C02 (only property-level statements and non-vacuity examples live here). -/
+import SpoxModel.Lemmas.Scope
+import SpoxModel.Lemmas.Named
+import SpoxModel.Lemmas.BuildIR
+import SpoxModel.Model.Naming
+import SpoxModel.Generated.BuildFlags
+/-!
+# C02 — build never hands back an invalid ONNX model
+
+Property theorems only.
+
+* namespace level (`ops_inv`, `lookup_bijective`, `clash_raises_*`): every state of a `ScopeSpace`
+  chain reachable by operations that did not raise keeps names and objects in bijection and off the
+  reserved names; a clash raises.
+* naming of a build (`update_inv`, `names_unique`): all names handed out by a build's naming calls
+  are pairwise distinct.
+* translation validation (`checkStructural_sound`): the checker that the driver runs on the real
+  ModelProto of every generated build accepts only graphs in which every value name and every
+  non-empty node name is defined once in the whole tree and every node input is defined earlier in
+  the same or an enclosing graph.
+* `build_returns_only_checked`: over the IR extracted from /repo on this run, every path of
+  `build` returns a model that went through `onnx.checker.check_model` last.
+-/
+namespace C02
+open Scope
+
+/-- Every namespace state reachable from the empty one by any sequence of `__setitem__`, `reserve`,
+    `enum`, `maybe_enum`, `__delitem__`, child creation and return, none of which raised, satisfies
+    the invariant: visible names ↔ objects is a bijection, disjoint from the reserved names, which are
+    themselves reserved once. -/
+theorem ops_inv (ops : List Op) (s : Space) (h : run {} ops = .ok s) : Inv s :=
+  run_inv ops empty_inv h
+
+/-- Under the invariant the two lookups are mutually inverse on everything visible
+    (`space[name]` is the object, `space[obj]` is the name). -/
+theorem lookup_bijective (s : Space) (h : Inv s) (o : Nat) (n : String)
+    (hm : (o, n) ∈ allPairs s.frames) :
+    getName s.frames n = some o ∧ getObj s.frames o = some n :=
+  ⟨getName_of_mem h hm, getObj_of_mem h hm⟩
+
+/-- A name already bound (anywhere visible) to another object cannot be given again: the code
+    raises. -/
+theorem clash_raises_name (s : Space) (h : Inv s) (o o' : Nat) (n : String)
+    (hm : (o', n) ∈ allPairs s.frames) (hne : o' ≠ o) : s.setitem n o = .error .scope := by
+  have hg := getName_of_mem h hm
+  have hc : s.hasName n = true :=
+    (containsName_iff s.frames n).mpr (Or.inr (List.mem_map.mpr ⟨(o', n), hm, rfl⟩))
+  unfold Space.setitem
+  simp only [hc, ↓reduceIte, hg]
+  simp [hne]
+
+/-- A reserved name (an inlined model's internal) cannot be given to an object: the code raises. -/
+theorem clash_raises_reserved (s : Space) (h : Inv s) (o : Nat) (n : String)
+    (hr : n ∈ allReserved s.frames) : ∃ e, s.setitem n o = .error e := by
+  have hc : s.hasName n = true := (containsName_iff s.frames n).mpr (Or.inl hr)
+  unfold Space.setitem
+  simp only [hc, ↓reduceIte]
+  cases hg : getName s.frames n with
+  | none => exact ⟨.key, rfl⟩
+  | some o' =>
+    -- the name would have to be bound as well as reserved, which the invariant excludes
+    exfalso
+    have : ∀ fs : List Frame, getName fs n = some o' → n ∈ (allPairs fs).map (·.2) := by
+      intro fs
+      induction fs with
+      | nil => simp [getName]
+      | cons f ps ih =>
+        simp only [getName]
+        split
+        · intro hh; simp only [allPairs_cons, List.map_append, List.mem_append]; exact Or.inr (ih hh)
+        · intro hh
+          simp only [allPairs_cons, List.map_append, List.mem_append]
+          left
+          simp only [Frame.ofNameLocal, Option.map_eq_some_iff] at hh
+          obtain ⟨p, hp, _⟩ := hh
+          have hp2 := List.find?_some hp
+          exact List.mem_map.mpr ⟨p, List.mem_of_find?_eq_some hp, by simpa using hp2⟩
+    exact h.disj n (this _ hg) hr
+
+/-- An object that already has a name cannot silently get another one. -/
+theorem clash_raises_rename (s : Space) (h : Inv s) (o : Nat) (n n' : String)
+    (hm : (o, n') ∈ allPairs s.frames) (hne : n ≠ n') : ∃ e, s.setitem n o = .error e := by
+  have hg := getObj_of_mem h hm
+  have hO : s.hasObj o = true :=
+    (containsObj_iff s.frames o).mpr (List.mem_map.mpr ⟨(o, n'), hm, rfl⟩)
+  unfold Space.setitem
+  simp only [hO, ↓reduceIte, hg, hne]
+  split
+  · split
+    · exact ⟨_, rfl⟩
+    · split <;> exact ⟨_, rfl⟩
+  · exact ⟨_, rfl⟩
+
+/-- `reserve` refuses a name that is visible in any way. -/
+theorem reserve_clash_raises (s : Space) (n : String) (hc : s.hasName n = true) :
+    s.reserve n = .error .scope := by
+  unfold Space.reserve; simp [hc]
+
+/-- `Scope.update` (naming a node and its outputs) keeps the invariant of both namespaces. -/
+theorem update_keeps_inv (sc sc' : Scope) (pfx opId nm : String) (nodeId : Nat) (outs : List OutVar)
+    (h : SInv sc) (hs : sc.update pfx nodeId opId outs = .ok (nm, sc')) : SInv sc' :=
+  update_inv h hs
+
+theorem replayOp_inv {sc sc' : Scope} (op : Naming.TraceOp) (h : SInv sc)
+    (hs : Naming.replayOp sc op = .ok sc') : SInv sc' := by
+  cases op with
+  | update pfx id opId outs =>
+    simp only [Naming.replayOp] at hs
+    cases hu : sc.update pfx id opId outs with
+    | error e => simp [hu, Except.map] at hs
+    | ok r =>
+      obtain ⟨nm, sc1⟩ := r
+      simp only [hu, Except.map, Except.ok.injEq] at hs
+      subst hs
+      exact update_inv h hu
+  | maybeEnumVar b =>
+    simp only [Naming.replayOp, Except.ok.injEq] at hs
+    subst hs
+    exact ⟨by show Scope.Inv _; unfold Scope.Inv; rw [maybeEnum_frames]; exact h.1, h.2⟩
+  | reserveVar n =>
+    simp only [Naming.replayOp] at hs
+    cases hr : sc.var.reserve n with
+    | error e => simp [hr, Except.map] at hs
+    | ok v =>
+      simp only [hr, Except.map, Except.ok.injEq] at hs
+      subst hs
+      exact ⟨reserve_inv h.1 hr, h.2⟩
+  | maybeEnumNode b =>
+    simp only [Naming.replayOp, Except.ok.injEq] at hs
+    subst hs
+    exact ⟨h.1, by show Scope.Inv _; unfold Scope.Inv; rw [maybeEnum_frames]; exact h.2⟩
+  | reserveNode n =>
+    simp only [Naming.replayOp] at hs
+    cases hr : sc.node.reserve n with
+    | error e => simp [hr, Except.map] at hs
+    | ok v =>
+      simp only [hr, Except.map, Except.ok.injEq] at hs
+      subst hs
+      exact ⟨h.1, reserve_inv h.2 hr⟩
+
+theorem replay_inv {sc sc' : Scope} (ops : List Naming.TraceOp) (h : SInv sc)
+    (hs : Naming.replay sc ops = .ok sc') : SInv sc' := by
+  induction ops generalizing sc with
+  | nil => simp only [Naming.replay, Except.ok.injEq] at hs; subst hs; exact h
+  | cons op ops ih =>
+    simp only [Naming.replay] at hs
+    split at hs
+    · rename_i sc1 h1
+      exact ih (replayOp_inv op h h1) hs
+    · cases hs
+
+/-- **Naming of a build.** After any successful sequence of the naming calls a build performs
+    (`Scope.update` for arguments and nodes, `maybe_enum` + `reserve` for the internal values and
+    nodes of inlined models — in any order, any prefixes, any preset names): all value names handed
+    out — names of Vars and reserved internals together — are pairwise distinct, and so are all node
+    names — names of Nodes and reserved inlined node names together.
+    (That `compileGraph` touches the scope only through these calls is checked by the driver on every
+    case: the recorded trace replays to the same final scope.) -/
+theorem names_unique (ops : List Naming.TraceOp) (sc : Scope) (h : Naming.replay {} ops = .ok sc) :
+    ((allPairs sc.var.frames).map (·.2) ++ allReserved sc.var.frames).Nodup ∧
+    ((allPairs sc.node.frames).map (·.2) ++ allReserved sc.node.frames).Nodup := by
+  have hi : SInv sc := replay_inv ops ⟨empty_inv, empty_inv⟩ h
+  constructor
+  · rw [List.nodup_append]
+    refine ⟨hi.1.names, hi.1.res, ?_⟩
+    intro a ha b hb hab
+    subst hab
+    exact hi.1.disj a ha hb
+  · rw [List.nodup_append]
+    refine ⟨hi.2.names, hi.2.res, ?_⟩
+    intro a ha b hb hab
+    subst hab
+    exact hi.2.disj a ha hb
+
+/-- **Naming of a build, on the compilation itself.** Whenever the naming model of
+    `Builder.compile_graph` succeeds on an emission tree — any nesting of bodies, any inlined models,
+    any preset user names — the final scope has pairwise distinct value names (Vars ∪ reserved
+    internals) and pairwise distinct node names (Nodes ∪ reserved inlined node names). The state of
+    `compileGraph` carries the invariant; only the three scope-changing primitives construct it. -/
+theorem compile_names_unique (g : Naming.EGraph) (ng : Named.NGraph) (st : Naming.St)
+    (_h : Naming.compile g = .ok (ng, st)) :
+    ((allPairs st.sc.var.frames).map (·.2) ++ allReserved st.sc.var.frames).Nodup ∧
+    ((allPairs st.sc.node.frames).map (·.2) ++ allReserved st.sc.node.frames).Nodup := by
+  have hi : SInv st.sc := st.inv
+  constructor
+  · rw [List.nodup_append]
+    exact ⟨hi.1.names, hi.1.res, fun a ha b hb hab => by subst hab; exact hi.1.disj a ha hb⟩
+  · rw [List.nodup_append]
+    exact ⟨hi.2.names, hi.2.res, fun a ha b hb hab => by subst hab; exact hi.2.disj a ha hb⟩
+
+/-- …and a user-chosen (preset) name equal to a name some other Var already has makes the naming
+    step fail — the build raises instead of emitting a duplicate. -/
+theorem clash_raises (var : Space) (h : Inv var) (nodeName : String) (ov : OutVar) (rest : List OutVar)
+    (p : String) (hp : ov.preset = some p) (o' : Nat) (hm : (o', p) ∈ allPairs var.frames)
+    (hne : o' ≠ ov.id) : nameOutputs var nodeName (ov :: rest) = .error .scope := by
+  simp only [nameOutputs, hp]
+  rw [clash_raises_name var h ov.id o' p hm hne]
+
+/-- **Translation validation.** If the structural checker accepts a named graph then every value
+    name and every non-empty node name is defined exactly once in the whole graph tree, and every
+    non-empty node input (and every graph output) refers to a value defined earlier in the same graph
+    or in an enclosing graph. -/
+theorem checkStructural_sound (g : Named.NGraph) (h : Named.checkStructural g = true) :
+    (Named.valueNames (Named.defsG g)).Nodup ∧ (Named.nodeNames (Named.defsG g)).Nodup ∧
+    Named.ScopedG [] g := by
+  unfold Named.checkStructural at h
+  cases hc : Named.checkGraph [] [] g with
+  | none => simp [hc] at h
+  | some st =>
+    have := Named.checkGraph_sound g [] [] st hc
+    exact ⟨Named.valueNames_nodup this.1.nodup, Named.nodeNames_nodup this.1.nodup, this.2⟩
+
+open Generated.BuildFlags BuildIR in
+/-- Obligation tying the theorem to the source: with the parameters `build` passes, every path of
+    `Graph.to_onnx_model` that returns, returns the variable that was the argument of the last
+    `onnx.checker.check_model` call with nothing assigned to or done with it since. -/
+theorem generated_to_model_safe : safeBody false toOnnxModelIR = true := by decide
+
+open Generated.BuildFlags BuildIR in
+/-- …and `build` returns exactly what that call returned, untouched. -/
+theorem generated_build_safe : safeBody true buildIR = true ∧ toModelCalls = 1 ∧ concreteIO = true := by
+  decide
+
+open Generated.BuildFlags BuildIR in
+/-- **Nothing is returned unchecked.** For the code as it is in /repo now: whatever the branch
+    decisions, if `to_onnx_model` (called as `build` calls it) returns, the returned model was checked
+    by `onnx.checker.check_model` and not modified afterwards; and if `build` returns, it returns that
+    very model. Neither falls off its end. -/
+theorem build_returns_only_checked (ch ch' : List Bool) :
+    (∀ ok, (execL false [] ch toOnnxModelIR).1 = .returned ok → ok = true) ∧
+    (∀ ok, (execL true [] ch' buildIR).1 = .returned ok → ok = true) ∧
+    (∀ c, (execL false [] ch toOnnxModelIR).1 ≠ .fell c) ∧
+    (∀ c, (execL true [] ch' buildIR).1 ≠ .fell c) :=
+  ⟨safeBody_sound generated_to_model_safe ch, safeBody_sound generated_build_safe.1 ch',
+   safeBody_no_fall generated_to_model_safe ch, safeBody_no_fall generated_build_safe.1 ch'⟩
+
+/-! ### known finding `dup-value:version-converter-fresh-name`
+
+The full-strength statement "whenever `build` returns, every value name of the model is defined
+once" is **false** of the code as it is: names invented by `onnx.version_converter` during per-node
+adaptation (`_v_4`, …) never pass through the scope, so the scope theorems above (which hold for every
+name the scope hands out) do not cover them. `adapterWitness` is the name structure of the model
+`build` really returns for the committed replay `findings/C02-adapter-fresh-name.json`
+(a v17 `ReduceMax` inside a Loop body whose other operator needs opset 19, and another v17 `ReduceMax`
+after the loop). What *is* proved excludes exactly these names: `names_unique` /
+`compile_names_unique` speak about the names issued by the scope, `checkStructural_sound` about each
+returned model individually (and the checker run on the real model rejects this one). -/
+def adapterWitness : Named.NGraph :=
+  .mk ["x"] [] [
+    .mk "Constant_0" [] ["Constant_0_output"] [],
+    .mk "Loop_0" ["Constant_0_output", "", "x"] ["Loop_0_v_final_and_scan_outputs_0"] [.mk ["Loop_0_body__Argument_0_arg", "Loop_0_body__Argument_1_arg", "Loop_0_body__Argument_2_arg"] [] [
+        .mk "" [] ["_v_4"] [],
+        .mk "Loop_0_body__ReduceMax_0" ["Loop_0_body__Argument_2_arg", "_v_4"] ["Loop_0_body__ReduceMax_0_reduced"] [],
+        .mk "Loop_0_body__Add_0" ["Loop_0_body__Argument_2_arg", "Loop_0_body__ReduceMax_0_reduced"] ["Loop_0_body__Add_0_C"] [],
+        .mk "Loop_0_body__Identity_0" ["Loop_0_body__Add_0_C"] ["Loop_0_body__Identity_0_output"] [],
+        .mk "Loop_0_body__Introduce_0_id0" ["Loop_0_body__Argument_1_arg"] ["Loop_0_body__Introduce_0_outputs_0"] [],
+        .mk "Loop_0_body__Introduce_0_id1" ["Loop_0_body__Identity_0_output"] ["Loop_0_body__Introduce_0_outputs_1"] []] ["Loop_0_body__Introduce_0_outputs_0", "Loop_0_body__Introduce_0_outputs_1"]],
+    .mk "" [] ["_v_4"] [],
+    .mk "ReduceMax_0" ["Loop_0_v_final_and_scan_outputs_0", "_v_4"] ["ReduceMax_0_reduced"] [],
+    .mk "Add_0" ["Loop_0_v_final_and_scan_outputs_0", "ReduceMax_0_reduced"] ["Add_0_C"] [],
+    .mk "Introduce_0_id0" ["Add_0_C"] ["y"] []] ["y"]
+
+/-- the returned model of the witness defines `_v_4` twice — the negation of "every value name is
+    defined exactly once" on a concrete output of the pinned code; the structural checker rejects it -/
+theorem adapter_names_counterexample :
+    ¬ (Named.valueNames (Named.defsG adapterWitness)).Nodup ∧ Named.checkStructural adapterWitness = false := by
+  decide
+
+/-! ### non-vacuity -/
+
+def outcome {α} : Except Err α → Option Err
+  | .ok _ => none
+  | .error e => some e
+
+-- a user name colliding with a generated one raises; a clean sequence does not
+example : outcome (run {} [.set "Abs_0_Y" 1, .set "Abs_0_Y" 2]) = some .scope := by decide
+example : outcome (run {} [.set "x" 1, .reserve "Inline_0__x", .set "y" 2, .push, .set "z" 3, .pop]) = none := by
+  decide
+-- a child namespace sees its parent's names
+example : outcome (run {} [.set "x" 1, .push, .set "x" 2]) = some .scope := by decide
+-- the checker accepts a nested well-formed graph and rejects shadowing / use-before-def / duplicates
+open Named in
+example : checkStructural (.mk ["x", "c"] [] [.mk "If_0" ["c"] ["r"] [.mk [] [] [.mk "n" ["x"] ["t"] []] ["t"]]] ["r"]) = true := by
+  decide
+open Named in
+example : checkStructural (.mk ["x"] [] [.mk "a" ["x"] ["y"] [.mk [] [] [.mk "b" ["x"] ["y"] []] ["y"]]] ["y"]) = false := by
+  decide
+open Named in
+example : checkStructural (.mk ["x"] [] [.mk "a" ["y"] ["z"] [], .mk "b" ["x"] ["y"] []] ["z"]) = false := by decide
+open Named in
+example : checkStructural (.mk ["x"] [] [.mk "a" ["x"] ["y"] [], .mk "a" ["y"] ["z"] []] ["z"]) = false := by decide
+-- deleting the checker call, or checking a different variable, is not a safe shape
+open BuildIR in
+example : safeBody false [.assign 0, .ret (some 0)] = false := by decide
+open BuildIR in
+example : safeBody false [.assign 0, .assign 1, .check 1, .ret (some 0)] = false := by decide
+open BuildIR in
+example : safeBody false [.assign 0, .check 0, .assign 0, .ret (some 0)] = false := by decide
+open BuildIR in
+example : safeBody false [.assign 0, .ifKnown true [.check 0], .ret (some 0)] = true := by decide
+
+end C02
